@@ -108,7 +108,11 @@ func c14Exec(c *mon.Case) {
 					}
 					t = ct
 				default:
-					t = ctok.NewExpressionTokenizer()
+					et := ctok.NewExpressionTokenizer()
+					if q != '\'' { // a further quote character handed to the tokenizer's own quote state
+						et.SetCharacterState(q, q, et.QuoteState())
+					}
+					t = et
 				}
 				t.SetDecodeStrings(true)
 				toks = t.TokenizeBuffer(enc + tail)
@@ -218,7 +222,7 @@ func buildC14(cfg *mon.Config) []*mon.Sub {
 	}
 	rnd := &mon.Sub{
 		Name:  "random-long",
-		Rule:  "seeded random strings of up to 100 runes from ASCII, Latin-1, BMP, astral, quotes, CR/LF x quote characters x the three states, round trip, stream and decode-only modes; a quarter of the strings (also texts with backslash sequences, percent and ampersand escapes of other conventions) additionally through the whole expression / CSV tokenizer with string decoding on: the encoded form followed by three tails must come back as first token of type Quoted with the original as value, and TokenizeBufferToStrings must list exactly the token values",
+		Rule:  "seeded random strings of up to 100 runes from ASCII, Latin-1, BMP, astral, quotes, CR/LF x quote characters x the three states, round trip, stream and decode-only modes; a quarter of the strings (also texts with backslash sequences, percent and ampersand escapes of other conventions) additionally through the whole expression / CSV tokenizer with string decoding on (expression: apostrophe, or backtick / « handed to the tokenizer's own quote state with SetCharacterState; CSV: the quote configured): the encoded form followed by three tails must come back as first token of type Quoted with the original as value, and TokenizeBufferToStrings must list exactly the token values",
 		Floor: 1000,
 		Gen: func(emit func(string)) {
 			r := cfg.Rng("c14-random")
@@ -237,7 +241,7 @@ func buildC14(cfg *mon.Config) []*mon.Sub {
 				if i%4 == 0 {
 					// through the whole tokenizer: apostrophe literals of the expression language, CSV with the quote configured
 					if r.Bool() {
-						emit("expression\x00'\x00api\x00" + b.String())
+						emit("expression\x00" + string(mon.Pick(r, []rune{'\'', '\'', '`', '«'})) + "\x00api\x00" + b.String())
 					} else {
 						emit("csv\x00" + string(mon.Pick(r, []rune{'"', '\'', '`', '«'})) + "\x00api\x00" + b.String())
 					}
@@ -247,12 +251,13 @@ func buildC14(cfg *mon.Config) []*mon.Sub {
 		Exec: c14Exec,
 	}
 	huge := &mon.Sub{
-		Name: "values-of-a-mebibyte-and-more", Rule: "strings of 2^20 (thorough: also 2^20-2, 2^20+3 and 3 * 2^20) characters that begin and/or end with the quote character (and ones that do not), x the three states x apostrophe and double quote: decode(encode(s)) = s, and for expression and CSV the encoded form is read back from a stream as one token that decodes to s",
+		Name: "values-of-a-mebibyte-and-more", Rule: "strings of 2^20 (thorough: also 2^20-2, 2^20+3, 3 * 2^20 and 2^24+5) characters that begin and/or end with the quote character (and ones that do not), x the three states x apostrophe and double quote: decode(encode(s)) = s, and for expression and CSV the encoded form is read back from a stream as one token that decodes to s",
 		Exhaustive: true, DistinctByGen: true, Floor: 20,
+		Batch: 1,
 		Gen: func(emit func(string)) {
 			sizes := []int{1 << 20}
 			if !cfg.Quick() {
-				sizes = []int{1<<20 - 2, 1 << 20, 1<<20 + 3, 3 << 20}
+				sizes = []int{1<<20 - 2, 1 << 20, 1<<20 + 3, 3 << 20, 1<<24 + 5}
 			}
 			for _, n := range sizes {
 				for _, q := range []string{"'", "\""} {
